@@ -53,7 +53,19 @@ def mask_field(M):
 def rule_used_mask(ctx, M, fn, pr, turn_f, river_f, mask, rule):
     """the used-card set kept as a u64 bit mask over `u64::from(&card)` (one distinct bit per card: C13.card-bits):
     test = `mask & bits != 0`, record = `mask |= bits`, reset = `mask = 0`"""
-    mf = M.self_field(mask)
+    local_mask = isinstance(mask, tuple) and mask[0] == "local"
+    if local_mask:
+        ML = mask[1]
+        mterm = pr.local(ML)
+
+        def is_mask(t):
+            s_ = P.strip(t)
+            return s_ == mterm or s_ == ("self", ML)
+    else:
+        mf = M.self_field(mask)
+
+        def is_mask(t):
+            return P.strip(t) == mf
 
     def cards_of(t):
         """the card classes OR-ed together in a bits term, or None"""
@@ -74,7 +86,7 @@ def rule_used_mask(ctx, M, fn, pr, turn_f, river_f, mask, rule):
             us = P.strip(u)
             if P.const_int(P.strip(v)) == 0 and us[0] == "bin" and us[1] == "BitAnd":
                 for m_, bits in ((us[2], us[3]), (us[3], us[2])):
-                    if P.strip(m_) == mf:
+                    if is_mask(m_):
                         cs = cards_of(bits)
                         if cs is None:
                             raise U(rule, f"the used-card mask is tested against something that is not a union of card bits: {P.show(bits)[:80]}", fn)
@@ -83,15 +95,30 @@ def rule_used_mask(ctx, M, fn, pr, turn_f, river_f, mask, rule):
                             if op == "Ne" and c[0] == "hole":
                                 hit_edges.setdefault(c[1], []).append((b, lab))
     resets = []
-    for l, lst in pr.stores.items():
-        for (sb, si, pl, rv) in lst:
-            pj = pl["proj"]
-            if not (pl["l"] == 1 and len(pj) == 2 and pj[0] == "deref" and isinstance(pj[1], dict) and pj[1].get("f") == mask):
-                continue
+    writes = []
+    if local_mask:
+        for (sb, si, kind, rv) in pr.defs.get(ML, []):
+            if kind != "rv":
+                raise U(rule, "the used-card mask local is assigned a call result", fn)
+            writes.append((sb, rv))
+    else:
+        for l, lst in pr.stores.items():
+            for (sb, si, pl, rv) in lst:
+                pj = pl["proj"]
+                if pl["l"] == 1 and len(pj) == 2 and pj[0] == "deref" and isinstance(pj[1], dict) and pj[1].get("f") == mask:
+                    writes.append((sb, rv))
+    if True:
+        for (sb, rv) in writes:
             v = pr.rvalue(rv) if "callterm" not in rv else None
             vs = P.strip(v) if v else None
-            if vs and vs[0] == "bin" and vs[1] == "BitOr" and (P.strip(vs[2]) == mf or P.strip(vs[3]) == mf):
-                bits = vs[3] if P.strip(vs[2]) == mf else vs[2]
+            if local_mask and vs is not None and cards_of(vs) is not None and not any(is_mask(x) for x in P.walk(vs)):
+                # `let mut used = bits(turn) | bits(river)`: a fresh mask holding exactly these cards
+                for c in cards_of(vs):
+                    Iset.setdefault(c, []).append(sb)
+                resets.append(sb)
+                continue
+            if vs and vs[0] == "bin" and vs[1] == "BitOr" and (is_mask(vs[2]) or is_mask(vs[3])):
+                bits = vs[3] if is_mask(vs[2]) else vs[2]
                 cs = cards_of(bits)
                 if cs is None:
                     raise U(rule, f"something that is not a union of card bits is OR-ed into the used-card mask: {P.show(bits)[:80]}", fn)
@@ -132,6 +159,21 @@ def rule_used_mask(ctx, M, fn, pr, turn_f, river_f, mask, rule):
     # the mask starts every deal empty: it is reset on every path between two deals (a reset dominates every return that follows
     # an update) or the updates of one deal are undone before returning
     upd = [b for bs in Iset.values() for b in bs]
+    if local_mask:
+        # a local mask is fresh when its (single) whole initialisation runs once per deal: before the player loop, and inside
+        # every loop the player loop is inside
+        if len(resets) != 1 or not fl:
+            ok = False
+            ctx.violation(rule, f"{fn.path}|mask-not-reset", "the local used-card mask is not initialised exactly once per deal", fn=fn.path, file=fn.file, line=fn.line)
+        else:
+            ib = resets[0]
+            for lp in fl:
+                outer_ok = all(ib in body for h, body in fn.cfg.loops().items() if lp.header in body and h != lp.header)
+                if not fn.cfg.dominates(ib, lp.header) or ib in lp.body or not outer_ok:
+                    ok = False
+                    ctx.violation(rule, f"{fn.path}|mask-not-reset", "the local used-card mask is not (re)initialised before each deal's player loop: "
+                                  "cards of one deal block the next", fn=fn.path, file=fn.file, line=fn.blocks[ib]["line"])
+        upd = []
     for rb in fn.cfg.return_blocks():
         for ub in upd:
             if rb in fn.cfg.reach_from(ub):
@@ -219,6 +261,13 @@ def rule_used_set(ctx, M, fn, pr, turn_f, river_f):
     mask = mask_field(M)
     if mask is not None:
         return rule_used_mask(ctx, M, fn, pr, turn_f, river_f, mask, rule)
+    tys_ = M.iter_field_tys()
+    if not any(t.startswith(f"std::collections::HashSet<{evalmodel.CARD}") for t in tys_):
+        # no set field at all: the used cards may be a u64 mask local to the deal function
+        cands = [l for l in range(fn.arg_count + 1, len(fn.locals)) if fn.local_ty(l) == "u64" and fn.local_name(l) is not None
+                 and len(pr.defs.get(l, [])) >= 2]
+        if len(cands) == 1:
+            return rule_used_mask(ctx, M, fn, pr, turn_f, river_f, ("local", cands[0]), rule)
     for bi, t in fn.calls():
         if bi not in fn.cfg.reachable:
             continue
